@@ -103,6 +103,8 @@ def run(ctx):
         jobs.append(Job("c11.py", "h_scan", {"cfg": 1, "root": 0, "fix_f1": f1}, T, 60, tag=f"scan cfg1 root#0 top-level-file#{f1}", meta={"sigtag": "scan-selection", "twin": False}))
     for f1 in (4, 13, 14):      # two extension-less names in one tree (one of them maps to a language by NAME): per-name lexer lookup, no per-extension shortcut
         jobs.append(Job("c11.py", "h_scan", {"cfg": 0, "root": 0, "fix_f1": f1}, T, 60, tag=f"scan cfg0 root#0 top-level-file#{f1}", meta={"sigtag": "scan-selection", "twin": False}))
+    for f1 in (2, 9, 0):        # byte-identical files whose names map to different languages (n.js / c.c / m.py at the top vs every deep file)
+        jobs.append(Job("c11.py", "h_scan", {"cfg": 0, "root": 0, "fix_f1": f1, "dup": True}, T, 60, tag=f"scan cfg0 root#0 identical bytes, top-level-file#{f1}", meta={"sigtag": "scan-selection", "twin": False}))
     jobs.append(Job("c11.py", "h_cli_sources", {}, T, 60, tag="exclusion sources through the CLI functions", meta={"sigtag": "exclusion-sources"}))
     ctx.bounds["sources"] = "the real __main__.scan / __main__.check with 3 option lists x 4 .codelimit.yml contents x 2 .gitignore contents (Configuration.load real, over the in-memory FS)"
     ctx.bounds.update({"E2": "path strings of any length (z3 string variable); one query per exclusion entry of 4 configurations", "trees": "main.py + top-level file + <D1>/m.py + <D1>/<D2>/<F3>, D1,D2 from 14 directory names, F from 13 file names (solver-chosen)",
